@@ -24,7 +24,9 @@ Inductive cell : Set :=
 | CTag (t : tag) (parent : option id) (expandable : option id) (expanded : bool) (hasdefs : bool)
 | CGroup (ch : list id) (parent : option id).
 
-Record store : Set := mkStore { cells : list cell; root : id }.
+(* root = the HedString object being worked on; saved = the objects it was copied from
+   (most recent first), still alive and reachable by the caller *)
+Record store : Set := mkStore { cells : list cell; root : id; saved : list id }.
 
 Fixpoint set_nth {A} (l : list A) (i : nat) (x : A) : list A :=
   match l, i with
@@ -77,7 +79,7 @@ Fixpoint alloc_list (hasd : bool) (parent : id) (l : list node) (cs : list cell)
 (* HedString(text, schema, def_dict) for the parsed forest f *)
 Definition load (f : forest) : store :=
   let '(ids, cs) := alloc_list true 0 f [CGroup [] None] in
-  mkStore (set_nth cs 0 (CGroup ids None)) 0.
+  mkStore (set_nth cs 0 (CGroup ids None)) 0 [].
 
 (* ------------------------------------------------------------------ reading *)
 
@@ -264,7 +266,7 @@ Definition expand_defs (fx : bool) (D : dict) (s : store) : res store :=
   let* tl := mapM (def_tags_of_group cs) gs in
   let* (reps, cs1) := collect_replacements D cs (concat tl) in
   let* cs2 := apply_replacements fx cs1 reps in
-  Ok (mkStore cs2 (root s)).
+  Ok (mkStore cs2 (root s) (saved s)).
 
 (* ------------------------------------------------------------------ shrink_defs *)
 
@@ -308,7 +310,7 @@ Fixpoint apply_shrinks (fx : bool) (cs : list cell) (l : list (id * option id)) 
 Definition shrink_defs (fx : bool) (s : store) : res store :=
   let* l := find_de_tags (cells s) (root s) in
   let* cs := apply_shrinks fx (cells s) l in
-  Ok (mkStore cs (root s)).
+  Ok (mkStore cs (root s) (saved s)).
 
 (* ------------------------------------------------------------------ copy *)
 
@@ -324,11 +326,18 @@ Definition shift_cell (n : nat) (c : cell) : cell :=
    superset) is observationally the same.  The working object becomes the copy. *)
 Definition copy (s : store) : store :=
   let n := length (cells s) in
-  mkStore (cells s ++ map (shift_cell n) (cells s)) (root s + n).
+  mkStore (cells s ++ map (shift_cell n) (cells s)) (root s + n) (root s :: saved s).
+
+(* continue on the object the working one was copied from (and keep the copy) *)
+Definition swap (s : store) : store :=
+  match saved s with
+  | [] => s
+  | r :: rest => mkStore (cells s) r (root s :: rest)
+  end.
 
 (* ------------------------------------------------------------------ op sequences *)
 
-Inductive op : Set := OpExpand | OpShrink | OpCopy | OpValidate.
+Inductive op : Set := OpExpand | OpShrink | OpCopy | OpValidate | OpSwap.
 
 Definition step (fx : bool) (D : dict) (o : op) (s : store) : res store :=
   match o with
@@ -336,6 +345,7 @@ Definition step (fx : bool) (D : dict) (o : op) (s : store) : res store :=
   | OpShrink => shrink_defs fx s
   | OpCopy => Ok (copy s)
   | OpValidate => Ok s
+  | OpSwap => Ok (swap s)
   end.
 
 Fixpoint run (fx : bool) (D : dict) (ops : list op) (s : store) : res store :=
@@ -344,17 +354,25 @@ Fixpoint run (fx : bool) (D : dict) (ops : list op) (s : store) : res store :=
   | o :: ops' => let* s' := step fx D o s in run fx D ops' s'
   end.
 
-(* spec-level semantics of the same op sequence *)
-Definition step_t (D : dict) (o : op) (f : forest) : res forest :=
+(* spec-level semantics of the same op sequence: the working annotation and the
+   saved ones *)
+Definition tstate := (forest * list forest)%type.
+
+Definition step_ts (D : dict) (o : op) (st : tstate) : res tstate :=
+  let '(f, sv) := st in
   match o with
-  | OpExpand => Ok (expand_t D f)
-  | OpShrink => shrink_t f
-  | OpCopy => Ok f
-  | OpValidate => Ok f
+  | OpExpand => Ok (expand_t D f, sv)
+  | OpShrink => let* f' := shrink_t f in Ok (f', sv)
+  | OpCopy => Ok (f, f :: sv)
+  | OpValidate => Ok (f, sv)
+  | OpSwap => match sv with [] => Ok (f, sv) | g :: r => Ok (g, f :: r) end
   end.
 
-Fixpoint run_t (D : dict) (ops : list op) (f : forest) : res forest :=
+Fixpoint run_ts (D : dict) (ops : list op) (st : tstate) : res tstate :=
   match ops with
-  | [] => Ok f
-  | o :: ops' => let* f' := step_t D o f in run_t D ops' f'
+  | [] => Ok st
+  | o :: ops' => let* st' := step_ts D o st in run_ts D ops' st'
   end.
+
+Definition run_t (D : dict) (ops : list op) (f : forest) : res forest :=
+  let* st := run_ts D ops (f, []) in Ok (fst st).
